@@ -55,6 +55,23 @@ def run(ctx):
         rq = corpus_requests("C14") + requests(ctx)
         impl = ctx.impl(rq)
         model = ctx.model(rq)
+        # corpus VCDs whose multi-threaded loads differ: is the body in the known hand-over finding class (FMT)?
+        # (no Lean model run for corpus files: the class is computed from the body bytes alone)
+        fmt = {}
+        ask = []
+        for r, i in zip(rq, impl):
+            if r.startswith("entryfile") and r.endswith(".vcd") and i.startswith("DIFF:"):
+                second = i.split("!=")[1]
+                if second.startswith("file2p:mt=true") or second.startswith("simple_path:mt=true"):
+                    data = open(r.split(" ", 1)[1], "rb").read()
+                    k = data.find(b"$enddefinitions")
+                    j = data.find(b"$end", k + 15)
+                    if k >= 0 and j >= 0:
+                        ask.append((r, f"fmtclass 4 {data[j + 4:].hex()}"))
+        if ask:
+            ans = ctx.model([a for _, a in ask], tag="model_fmtclass")
+            for (r, _), a in zip(ask, ans):
+                fmt[r] = a.split("\t")[0]
         # corpus files that fail to load identically through every entry point are outside the quantifier
         impl2, model2 = [], []
         for r, i, m in zip(rq, impl, model):
@@ -66,6 +83,8 @@ def run(ctx):
                 # only the memory-mapped multi-threaded loads may differ under the known hand-over finding
                 if second.startswith("file2p:mt=true") or second.startswith("simple_path:mt=true"):
                     i = "DIFF"
+                    if fmt.get(r) == "FMT":
+                        m = "DIFF\tsame:ok\tFMT"
             impl2.append(i)
             model2.append(m)
         core.compare_streams(res, rq, impl2, model2, is_nontrivial=lambda r, i: i == "same:ok",
